@@ -194,6 +194,8 @@ KERNELS = [
     #     (isinstance is tried in this order: str before Sequence, bool before nothing else that would take it, …)
     dict(name='encodeAllowedTypes', kind='names', file='torf/_utils.py', var='ENCODE_ALLOWED_TYPES'),
     dict(name='encodeConverterOrder', kind='names', file='torf/_utils.py', var='ENCODE_CONVERTERS'),
+    # --- Torrent.magnet (C06): the text put in front of the infohash to form the exact topic
+    dict(name='magnetXtPrefix', kind='strings', file='torf/_torrent.py', func='Torrent.magnet', pick=('str-left-of', 'self.infohash')),
     # --- the parameter tables of magnet URIs (C13): literal tuples of names; an element that is itself a tuple
     #     contributes its first component
     dict(name='magnetKnownParameters', kind='strings', file='torf/_magnet.py', func='Magnet',
@@ -307,6 +309,13 @@ def _pick(fn, pick):
         if len(hits) != 1:
             raise CannotTranslate(f'{len(hits)} top-level if-chains assigning {pick[1]}')
         return chain(hits[0])
+    if kind == 'str-left-of':
+        # the string constant(s) concatenated in front of the named expression: `'<text>' + <expr>` (as a one-element tuple)
+        hits = [n for n in ast.walk(fn) if isinstance(n, ast.BinOp) and isinstance(n.op, ast.Add) and
+                isinstance(n.left, ast.Constant) and isinstance(n.left.value, str) and ast.unparse(n.right) == pick[1]]
+        if len(hits) != 1:
+            raise CannotTranslate(f'{len(hits)} string constants in front of {pick[1]}')
+        return ast.Tuple(elts=[hits[0].left], ctx=ast.Load())
     if kind == 'for-tuple':
         # the n-th `for … in (<literal tuple>)` loop of the function, in source order
         hits = sorted((n for n in ast.walk(fn) if isinstance(n, ast.For) and isinstance(n.iter, ast.Tuple)),
